@@ -65,6 +65,11 @@ CHECKS = {
    "For each scenario (plain extension, losing fork block, reorg with spends on both sides, header-only reorg, compaction, compaction followed by a block, plus generated variations) a trace run numbers every durable step (file truncate/write/fsync, temp-file rename, file replace, LMDB commit incl. nested commits, MMR syncs, chain commits); for EVERY step n a child process performs the action on a copy of the prepared directory and aborts at step n, and a second process reopens it with Chain::init, checks head membership, validate(false), presence of best-chain records, re-delivers the scenario's chain above the reopened head and must end on the head, roots and unspent set of the uninterrupted run. Exhaustive over the points of each scenario, sampled over scenarios. The unchanged tree violates the property in several windows; these are listed in KNOWN_FINDINGS.json by (scenario kind, file group being persisted, failure class) and printed as KNOWN-FINDING lines.",
    "Crash = process death at an instrumented point (abort, nothing flushed): data handed to the kernel survives. Torn writes and lost fsyncs are out of scope. Hooks H2 (cfg grin_verif) provide the points.",
    "DESIGN.md §5 C09"),
+ "C14": ("pbt", "exploration",
+   "model-based stateful proptest over a real chain + TransactionPool wired like the node; invariant checked after every operation",
+   "Generated histories of submissions (fresh, children/grandchildren incl. two pooled parents, conflicting, duplicates, aggregates of pooled transactions, below minimum fee incl. fee shift, over weight, stem and fluff), blocks carrying arbitrary subsets of pool transactions or conflicting spends, mining from prepare_mineable_transactions, winning and losing forks and small capacities that force eviction. After every operation: no two pooled transactions share an input, each input is unspent at the head (replay model) or created in the pool, the aggregate of the public pool and of public+stem validates and passes Chain::validate_tx, each pooled transaction pays the minimum fee for its weight, respects the weight limit and validates alone; the block built from the mineable set is within the weight limit and accepted by the chain. Sampled exploration.",
+   "accept_fee_base 1000 and AutomatedTesting limits; the pool is reconciled exactly as servers/src/common/adapters.rs does.",
+   "DESIGN.md §5 C14"),
 }
 
 NOT_YET = {}
